@@ -501,6 +501,16 @@ def consts(fn):
     sets, which the caller reports as inconclusive, not as a violation."""
     out = {"shift_in": set(), "count_add": set(), "count_sub": set(), "mask": set(), "init": set(), "emit_cmp": set(), "tail": set(), "keep": set(), "added": []}
     counters = {}
+    # `if (valb < 0) continue;` guards the rest of the iteration with valb >= 0
+    skips_rest = set()
+    for s_ in ir.walk_expr(fn):
+        if s_.get("kind") == "IfStmt":
+            ks_ = [x for x in ir.kids(s_) if x.get("kind") != "DeclStmt"]
+            if len(ks_) == 2:
+                th = ks_[1]
+                inner_ = [x for x in ir.kids(th)] if th.get("kind") == "CompoundStmt" else [th]
+                if len(inner_) == 1 and inner_[0].get("kind") == "ContinueStmt":
+                    skips_rest.add(id(ir.strip(ks_[0])))
     for n in ir.walk_expr(fn):
         if n.get("kind") == "VarDecl" and ir.qtype(n) == "int" and ir.ekids(n):
             r = trange.interval(ir.ekids(n)[-1])
@@ -555,6 +565,8 @@ def consts(fn):
                 v = lit(neg) if neg[0] == "lit" else (-lit(neg[2]) if neg[0] == "un" and neg[1] == "-" and lit(neg[2]) is not None else None)
                 if op == ">" and v is not None:
                     op, v = ">=", v + 1          # integers: x > k  <=>  x >= k+1
+                if id(n) in skips_rest and v is not None and op in ("<", "<="):
+                    op, v = ">=", (v if op == "<" else v + 1)      # the rest of the iteration runs when the test fails
                 out["emit_cmp"].add((op, v))
     return out
 
